@@ -79,6 +79,10 @@ class ConfigNodeMeta(NamespaceableMeta):
                             del kwargs[arg_name]
                             continue
                         setattr(value, '_' + arg_name, kwargs[arg_name])
+                if 'priority' in kwargs and value._is_composed():
+                    # a priority given to a container applies to everything below it
+                    for descendant in value.ayns.nodes():
+                        descendant._priority = kwargs['priority']
                 if any(k.startswith('implicit_') for k in kwargs.keys()):
                     value._propagate_implicit_values()
 
